@@ -52,7 +52,7 @@ class G:
         if k < 3 or not (self.state or self.locals or self.consts):
             return str(self.r.choice([0, 1, 1, 2, 3, 4, 5, 7, 8, 15, 16, 31, 100, 255, 256, 1000, 65535, 0x7FFFFFFF]
                                      if self.r.chance(1, 6) else [0, 1, 2, 3, 4, 5, 7, 8, 15]))
-        pool = [f'self.{n}' for n, _ in self.state] * (2 if self.seq else 0) + list(self.locals) + [f'self.{n}' for n, _ in self.consts]
+        pool = [f'self.{n}' for n, _ in self.state] * (2 if self.seq else 1) + list(self.locals) + [f'self.{n}' for n, _ in self.consts]
         if not pool:
             return str(self.r.randint(0, 9))
         return self.r.choice(pool)
@@ -427,6 +427,9 @@ def gen_class(rng, idx, profile, refuse_kind=None):
         g.tags.add('attr-ne-port')
     if seq:
         g.state = [(f's{k}', rng.choice([0, 0, 1, 2, 5, 100])) for k in range(rng.randint(0, 3))]
+    elif rng.chance(1, 2):
+        # a propagate() may READ integer attributes set in the constructor (never assigns them): they need the `initial` block too
+        g.state = [(f's{k}', rng.choice([1, 2, 5, 100, 255])) for k in range(rng.randint(1, 2))]
     g.consts = [(f'k{k}', rng.choice([0, 1, 2, 3, 7, 10, 255, 1000])) for k in range(rng.randint(0, 2))]
     g.top_depth = rng.randint(1, 3)
     d = rng.randint(1, 3)
